@@ -33,7 +33,7 @@ fn tag(p: Prop) -> u64 {
     }
 }
 
-fn close(a: f64, b: f64, rel: f64, abs: f64) -> bool {
+pub fn close(a: f64, b: f64, rel: f64, abs: f64) -> bool {
     (a - b).abs() <= rel * a.abs().max(b.abs()) + abs
 }
 
@@ -55,7 +55,7 @@ fn head(c: &SCase, e: usize) -> usize {
 
 /// is edge `e` permitted by the edge-local restriction models, judged by the real frontier model
 /// with no previous edge (turn restrictions are pair-dependent and never fire without one)
-fn permitted(c: &SCase, b: &Built, e: usize) -> bool {
+pub fn permitted(c: &SCase, b: &Built, e: usize) -> bool {
     let edge = b.graph.get_edge(&EdgeId(e)).unwrap();
     let st = b.si.state_model.initial_state().unwrap();
     let _ = c;
@@ -87,7 +87,7 @@ fn adjacency(c: &SCase) -> Vec<Vec<usize>> {
     adj
 }
 
-fn reachable(c: &SCase, b: &Built, from: usize) -> Vec<bool> {
+pub fn reachable(c: &SCase, b: &Built, from: usize) -> Vec<bool> {
     let adj = adjacency(c);
     let ok: Vec<bool> = (0..c.edges.len()).map(|e| permitted(c, b, e)).collect();
     let mut seen = vec![false; c.coords.len()];
@@ -216,7 +216,7 @@ fn edge_cost_alone(c: &SCase, b: &Built, e: usize) -> Option<f64> {
     Some(et.total_cost().as_f64())
 }
 
-fn bellman_ford(c: &SCase, b: &Built, from: usize) -> Option<Vec<f64>> {
+pub fn bellman_ford(c: &SCase, b: &Built, from: usize) -> Option<Vec<f64>> {
     let n = c.coords.len();
     let mut cost = vec![];
     for e in 0..c.edges.len() {
@@ -242,7 +242,7 @@ fn bellman_ford(c: &SCase, b: &Built, from: usize) -> Option<Vec<f64>> {
     Some(dist)
 }
 
-fn admissible_setting(c: &SCase, style: LenStyle) -> bool {
+pub fn admissible_setting(c: &SCase, style: LenStyle) -> bool {
     match effective_wf(c) {
         Some(w) if w == 0.0 => true,
         Some(w) => w <= 1.0 && style == LenStyle::Metric,
@@ -390,7 +390,7 @@ fn oracle_c03(ctx: &mut Ctx, idx: usize, c: &SCase, b: &Built, r: &SearchAlgorit
     }
 }
 
-fn oracle_c03_inner(ctx: &mut Ctx, idx: usize, c: &SCase, b: &Built, r: &SearchAlgorithmResult) {
+pub fn oracle_c03_inner(ctx: &mut Ctx, idx: usize, c: &SCase, b: &Built, r: &SearchAlgorithmResult) {
     let init: Vec<f64> = match b.si.state_model.initial_state() {
         Ok(s) => s.iter().map(|x| x.0).collect(),
         Err(_) => return,
@@ -916,7 +916,7 @@ fn corpus(p: Prop) -> Vec<(SCase, LenStyle)> {
 /// that state), then re-labelled via the short detour s->w->u; on its second expansion the edge u->v
 /// is not improved (a 2000 s right-turn delay / a restricted turn), so v keeps the entry computed from
 /// u's earlier label, and the returned route s->w->u->v->t carries that stale state.
-fn stale_link_witness(turn_restriction: bool) -> SCase {
+pub fn stale_link_witness(turn_restriction: bool) -> SCase {
     // metres north of t: s 7000, w 6000, u 5000, v 5200
     let lat = |m: f64| (39.0 + m / 111194.93) as f32;
     SCase {
